@@ -126,6 +126,8 @@ def run(r):
     rep.trust(LIB_FACTS["numpy.histogram"], LIB_FACTS["numpy.random.choice"], LIB_FACTS["DataFrame.sample"], "exact arithmetic (no floating point)")
     # purity first: cheap, robust, and a recorded violation takes precedence over a later 'cannot decide'
     check_pure_params(r, "C05-PURE", [D + "pcDelta", D + "downsample", D + "get_default_metric_for_input_data"])
+    from ..eff import check_no_dropping
+    check_no_dropping(r, "C05-PIPE", [D + "pcDelta"], "every pair's distance takes part in the histogram")
     eq = Equiv(vec=is_vec, rewrites=std_rewrites() + [hist_rewrite], modelled={"numpy.histogram", "numpy.arange"})
     pipe_verdict = compare_function(r, "C05-PIPE", D + "pcDelta", SPEC, "pcDelta: histogram (count slot, bins forwarded) of the condensed self distances or of the cross matrix of the down-sampled collections; "
                      "raw counts / counts over total / (counts + c) over (total + 2c); bins == 0 returns pc of the same arguments", eq=eq, key="pipeline and arithmetic")
